@@ -1,5 +1,6 @@
 from __future__ import annotations
 
+from bisect import bisect_right
 from dataclasses import dataclass, field
 from typing import List, Dict, TYPE_CHECKING
 
@@ -74,30 +75,27 @@ class O2JMap(Map[O2JNoteList, O2JHitList, O2JHoldList, O2JBpmList]):
 
         bpms = [e for e in events if isinstance(e, O2JBpm)]
 
+        # Every tempo event gets the offset reached by integrating the tempo
+        # segments before it (4 beats per measure), starting at init_bpm.
         offset = 0
         measure = 0
-        bpm_ix = -1
         bpm_val = init_bpm
+        for bpm in bpms:
+            offset += RAConst.min_to_msec((bpm.measure - measure) * 4 / bpm_val)
+            bpm.offset = offset
+            measure = bpm.measure
+            bpm_val = float(bpm.bpm)
 
-        next_bpm_measure = bpms[0].measure if len(bpms) > 0 else None
+        # A note measure is timed from the last tempo event at or before it.
+        bpm_measures = [bpm.measure for bpm in bpms]
         for note_measure in note_measures:
-            if not next_bpm_measure:
-                while note_measure > next_bpm_measure:
-                    bpm_ix += 1
-                    bpm = bpms[bpm_ix]
-                    # Update offset
-                    offset += RAConst.min_to_msec((bpm.measure - measure) * 4 / bpm_val)
-                    bpm.offset = offset
-                    measure = bpm.measure
-                    bpm_val = bpm.bpm
-
-                    # Check if next one is available
-                    if bpm_ix + 1 == len(bpms):
-                        next_bpm_measure = None
-                        break
-                    else:
-                        next_bpm_measure = bpm.measure
-
+            bpm_ix = bisect_right(bpm_measures, note_measure) - 1
+            if bpm_ix < 0:
+                offset, measure, bpm_val = 0, 0, init_bpm
+            else:
+                bpm = bpms[bpm_ix]
+                offset, measure = float(bpm.offset), bpm.measure
+                bpm_val = float(bpm.bpm)
             # We add it into the measure: offset dictionary.
             note_measure_dict[note_measure] = offset + RAConst.min_to_msec(
                 4 * (note_measure - measure) / bpm_val
